@@ -648,5 +648,7 @@ Definition leaf_conf (st : stype) (v : sval) : bool :=
          (0 <=? d_coeff d)
          && match fa_total_digits f with Some n => fst (dec_digits d) <=? n | None => true end
          && match fa_fraction_digits f with Some n => snd (dec_digits d) <=? n | None => true end
+     | BOpq OUuid, SOpq _ _ canon =>            (* the text of a uuid matches the pattern of the class *)
+         match fa_pattern f with Some (_, r) => re_match r canon | None => true end
      | _, _ => true
      end.
